@@ -147,7 +147,20 @@ func c03Profiles(tier Tier) []*explore.Profile {
 			return acts
 		},
 	}
-	return []*explore.Profile{product, hist, noDNS}
+	// the application edits its own DNS map after the container was built: the configuration the
+	// container was built with stays in force (d0 entitled, b0 and s0 not)
+	edited := &explore.Profile{
+		Name: "dns-map-edited-after-construction", EnvCfg: ledgerEnv(2), Depth: 1, Deadline: tierDeadline(tier), Workers: 1,
+		Oracles: orc,
+		Seeds: func(env *world.Env) []explore.SeedState {
+			delete(env.DNSMap, string(uni.D0))
+			env.DNSMap[string(uni.S0)] = struct{}{}
+			env.DNSMap[string(uni.B0)] = struct{}{}
+			return seedsOf("mixed")(env)
+		},
+		Menu: func(w *world.World) []world.Action { return accountMenu(w, o) },
+	}
+	return []*explore.Profile{product, hist, noDNS, edited}
 }
 
 // undisciplinedRoleMenu: the system contract sets and unsets single roles without discipline A7.
